@@ -162,6 +162,7 @@ fn graphs_eq(g: &Graph, h: &Graph) -> bool {
 
 fn run(g: &Graph, path: &std::path::Path, out: &mut dyn Write) {
     let mut ext = ExtTable::default();
+    for n in g.node_indices() { ext.add_pinned(&g[n].source); }
     let gtok = graph_tokens(g);
     let (mut cls, mut eq, mut tomlv) = ("panic".to_string(), 0, "none");
     let (mut l1, mut l2, mut g2) = ("-".to_string(), "-".to_string(), "-".to_string());
